@@ -50,7 +50,9 @@ func main() {
 	extra := map[string]interface{}{}
 	switch profile {
 	case "pure":
+		olog = &oracleLog{checked: map[string]int{}, out: out}
 		dist = runPure(seed, n, out)
+		olog.export(extra)
 	default:
 		if f, ok := profiles[profile]; ok {
 			dist = f(seed, n, out, extra)
